@@ -135,7 +135,8 @@ fn fam_mapfile_enums(rng: &mut Rng, idx: usize) -> Input {
     src.push_str("}\n");
     Input {
         family: if n_amb >= 2 { "anm-enums-ambiguous".into() } else { "anm-enums".into() },
-        tag: if n_amb >= 2 { "extend_from_mapfile/mapfile.enums".into() } else { String::new() }, perm: false,
+        // (also without an ambiguity the order of the sections shows: the consts are listed in that order in the debug info)
+        tag: "extend_from_mapfile/mapfile.enums".into(), perm: false,
         files: vec![("m.anmm".into(), m.into_bytes()), ("in.spec".into(), src.into_bytes())],
         steps: vec![
             step(&["truanm", "compile", "-g12", "in.spec", "-o", "out.anm", "--output-debug-info", "dbg.json"], &["out.anm", "dbg.json"]),
